@@ -70,12 +70,13 @@ def parse_tuples(out, head):
     """Extract TLC-printed tuples that start with <<"head", ...>> (bracket matching,
     tolerant of interleaving/newlines). Returns list of raw strings."""
     res = []
-    key = '<<"%s"' % head
+    pat = re.compile(r'<<\s*"%s"' % re.escape(head))
     i = 0
     while True:
-        i = out.find(key, i)
-        if i < 0:
+        m = pat.search(out, i)
+        if not m:
             break
+        i = m.start()
         depth = 0
         j = i
         while j < len(out):
